@@ -45,7 +45,7 @@ def gen_fault(rng, op, enabled):
     return None
 
 
-SCRIBBLE_KINDS = ("parse_xml", "user_parse", "tree_parse", "parse_json", "dict_decode")
+SCRIBBLE_KINDS = ("parse_xml", "user_parse", "tree_parse", "parse_json", "dict_decode", "dict_encode")
 _tool_ops = {}
 
 
@@ -190,9 +190,7 @@ def gen_spec(seed):
         # one prefix map for everything these callers do: parsers record into it, serializers receive the same object
         spec["share_nsmap"] = True
     if random.Random(seed ^ 0x5A17).random() < 0.2:
-        spec["share_inputs"] = True
-        for step in spec["steps"]:
-            step.pop("scribble", None)  # a returned object may legitimately alias the caller's own input
+        spec["share_inputs"] = True  # (what a call returns must not alias what the caller passed in: both may be changed later)
     return spec
 
 
